@@ -7,6 +7,7 @@
 //   c09_frames.cpp  stage  frames                       (lattice directions / point triples)
 //   c09_scaled.cpp  stages frames-scaled, nextframe-general (operands x 2^k, exactly parallel non-lattice pairs; nextFrame from a general frame)
 //   c09_ext.cpp     stages aliased-arguments, rotations-mixed-base, rotations-big-angles
+//   c09_dirty.cpp   stage  set-on-dirty-object          (every set* builder on objects pre-filled with primes / NaN: bitwise the fresh result)
 // The oracles are written from the documentation of each function (the matrix written out by hand,
 // "send p to p+t", Rodrigues' formula, "rotate the z axis into targetDir", ...), never from the
 // library's expressions.
@@ -107,5 +108,6 @@ int main (int argc, char** argv)
     c09::run_frames ();
     c09::run_frames_scaled ();
     c09::run_ext ();
+    c09::run_dirty ();
     return vf::R ().finish ();
 }
